@@ -74,7 +74,9 @@ func nameDefaultPhis(f *ssa.Function, names map[ssa.Value]string) {
 }
 
 func checkC01(c *Ctx) {
+	defer c01DefaultUID(c)
 	c.Decided = append(c.Decided,
+		"G-C01-uidagree: every function of package sm2 that substitutes default_uid for a user-ID parameter does so under the same condition (sibling agreement between signer and verifier)",
 		"G-C01-range: Sm2Verify and Verify reject r,s outside [1,n-1] (both bounds, both values) and (r+s) mod n == 0, before any curve operation; tests decoded on the SSA comparison so a weakened operator is a refutation",
 		"K-C01-verify: the accepted value is exactly ((e + x1) mod n) == r with (x1,_) = [s]G + [t]P, t=(r+s) mod n (canonical form of the big.Int object histories)",
 		"K-C01-sign: r = (e + x1) mod n with (x1,_) = [k]G and s = ((1+d)^-1 (k - r d)) mod n (canonical form), k = randFieldElement(curve, random) drawn inside the retry loop; r=0, r+k=n and s=0 lead back to a fresh draw; reader errors are returned",
